@@ -455,6 +455,7 @@ def run_check(modname, tier, seed, workers=None, cases=None):
             'fault_kinds_fired': dict(sorted(fired.items())),
             'probes': dict(sorted(probes.items())),
             'distinct_abstract_states': len(states),
+            'abstract_state_measure': getattr(mod, 'STATES', ''),
             'cases_by_group': dict(sorted(by_group.items())),
             'batch_digest': batch_digest,
             'truncated_by_wall_cap': truncated,
